@@ -26,7 +26,7 @@ import (
 //	"A" declared key, "B" the other fixture key of the same type, "e<k>"/"r<k>"/"x<k>" world keys.
 type C19Call struct {
 	Stanzas []string `json:"stanzas"`
-	Answer  string   `json:"answer"` // what the passphrase callback does if asked: "right" | "wrong" | "error"
+	Answer  string   `json:"answer"` // what the passphrase callback does if asked: "right" | "wrong" | "empty" | "odd" (a wrong one the parser does not call a password error) | "error" | "error-with-value"
 	FSeed   uint64   `json:"fseed"`
 }
 
@@ -92,7 +92,7 @@ func (C19) Generate(r *core.RNG, tier string, idx uint64) interface{} {
 		cl := C19Call{FSeed: r.U64() % 100000}
 		switch r.Intn(10) {
 		case 0, 1:
-			cl.Answer = "wrong"
+			cl.Answer = []string{"wrong", "wrong", "empty", "odd"}[r.Intn(4)]
 		case 2:
 			cl.Answer = []string{"error", "error-with-value"}[r.Intn(2)]
 		default:
@@ -236,6 +236,11 @@ func (e C19) Execute(plan interface{}, c *core.Ctx) *core.Verdict {
 	prompts := 0
 	answer := "right"
 	rightBuf, wrongBuf := []byte(pass), []byte("not the passphrase")
+	// a wrong passphrase that the key-file parser does not report as "incorrect password": the empty one for the
+	// OpenSSH format (bcrypt refuses it), and for the legacy PEM fixtures one that happens to decrypt to valid
+	// padding and to bytes that are not DER (found by a search over "wrong-N", about one in 10^4)
+	heldRSA := map[string]string{"rsa/A": "wrong-13656", "rsa/B": "wrong-30394", "ed/X": "wrong-30394"}[p.Type+"/"+p.Holds]
+	oddBuf := []byte(heldRSA)
 	if p.SharedBuf {
 		c.Stats.Inc("probe.passphrase_buffer_shared")
 	}
@@ -252,6 +257,13 @@ func (e C19) Execute(plan interface{}, c *core.Ctx) *core.Verdict {
 				return wrongBuf, nil
 			}
 			return []byte("not the passphrase"), nil
+		case "empty":
+			return []byte{}, nil
+		case "odd":
+			if p.SharedBuf {
+				return oddBuf, nil
+			}
+			return []byte(heldRSA), nil
 		case "error-with-value":
 			// the callback fails but still hands back what was typed: it must count as a failure
 			return []byte(pass), errors.New("sim: prompt interrupted")
@@ -538,7 +550,7 @@ func (e C19) Execute(plan interface{}, c *core.Ctx) *core.Verdict {
 			hasPrompt = true
 			c.Stats.Inc("probe.prompted")
 			switch {
-			case cl.Answer == "wrong":
+			case cl.Answer == "wrong" || cl.Answer == "empty" || cl.Answer == "odd":
 				c.Stats.Inc("fault.passphrase_wrong")
 				sawWrong = true
 			case cl.Answer == "error" || cl.Answer == "error-with-value":
